@@ -251,3 +251,104 @@ open ASV ASV.Packing
 def SharesBase (a b : Loc) : Prop := ∃ i : Int, a.mem i = true ∧ b.mem i = true
 
 end ASV.Packing.Spec
+
+/-! ### the protoclusters of a region -/
+namespace ASV.Packing.Spec
+open ASV ASV.Packing
+
+/-- keep the first of every group of entries with the same identity -/
+def dedupId : List PObj → List PObj
+  | [] => []
+  | p :: ps => p :: (dedupId ps).filter (·.id != p.id)
+
+/-- the protoclusters of a region are the protoclusters of its candidate clusters, each object
+    once however many candidate clusters share it — and two *different* objects both count, even
+    when they agree in extent and product (a detected cluster and a sideloaded annotation of it,
+    or two clusters of one product with different cores) -/
+def regionProtos (cands : List Cand) : List PObj := dedupId (cands.flatMap (·.members))
+
+/-- what has to be drawn for a region given by its children -/
+def regionSpecIn (subs : List Feat) (cands : List Cand) : RegionIn :=
+  { subregions := subs, candidates := cands.map (·.feat), protos := (regionProtos cands).map (·.feat) }
+
+/-- identities are identities: entries with the same id are the same object -/
+def idsConsistent (l : List PObj) : Bool :=
+  l.all fun p => l.all fun q => p.id != q.id || p == q
+
+/-- `delivered` is exactly the region's protoclusters, each once (compared by identity) -/
+def deliveredOk (cands : List Cand) (delivered : List PObj) : Bool :=
+  (delivered.map (·.id)).isPerm ((regionProtos cands).map (·.id))
+
+end ASV.Packing.Spec
+
+/-! ### genes as locations (what `CDSFeature`s of a region look like) -/
+namespace ASV.Packing.Spec
+open ASV ASV.Packing
+
+/-- the stretch `[lo, hi)` lies inside one part of the region -/
+def hullIn (c : Ctx) (lo hi : Int) : Bool :=
+  match c.region with
+  | .compound [p, q] =>
+    decide (lo < hi) && ((decide (p.lo ≤ lo) && decide (hi ≤ c.L)) || (decide (0 ≤ lo) && decide (hi ≤ q.hi)))
+  | .simple p => decide (p.lo ≤ lo) && decide (lo < hi) && decide (hi ≤ p.hi)
+  | .compound _ => false
+
+/-- piece `a` ends the record, piece `b` begins it, both inside the region -/
+def bridgeIn (c : Ctx) (a b : Part) : Bool :=
+  match c.region with
+  | .compound [p, q] => decide (p.lo ≤ a.lo) && decide (a.hi ≤ c.L) && decide (0 ≤ b.lo) && decide (b.hi ≤ q.hi)
+  | .simple p => c.circular && p.lo == 0 && p.hi == c.L && decide (a.hi ≤ c.L) && decide (0 ≤ b.lo)
+  | .compound _ => false
+
+/-- a gene of one or two exons inside the region: exons non-empty, in transcription order (for
+    the reverse strand the exon with the higher coordinates comes first), not overlapping;
+    either its hull lies in one part of the region, or it runs over the origin (the first exon
+    in genome order ends the record, the second begins it) -/
+def geneOK (c : Ctx) : Loc → Bool
+  | .simple p => hullIn c p.lo p.hi
+  | .compound [p, q] =>
+    p.strand == q.strand && (p.strand == .fwd || p.strand == .rev) &&
+    -- genome order
+    (let a := if p.strand == .fwd then p else q
+     let b := if p.strand == .fwd then q else p
+     if a.lo < b.lo then decide (a.lo < a.hi) && decide (a.hi ≤ b.lo) && decide (b.lo < b.hi) && hullIn c a.lo b.hi
+     else decide (b.lo < b.hi) && decide (b.hi ≤ a.lo) && decide (a.lo < a.hi) && bridgeIn c a b)
+  | .compound _ => false
+
+end ASV.Packing.Spec
+
+/-! ### reading the written JSON back -/
+namespace ASV.Packing.Spec
+open ASV ASV.Packing
+
+/-- the value stored under a key -/
+def jLookup (k : String) : List (String × JVal) → Option JVal
+  | [] => none
+  | (k1, v) :: t => if k = k1 then some v else jLookup k t
+def jInt (j : List (String × JVal)) (k : String) : Option Int :=
+  match jLookup k j with
+  | some (.int i) => some i
+  | _ => none
+def jStr (j : List (String × JVal)) (k : String) : Option String :=
+  match jLookup k j with
+  | some (.str s) => some s
+  | _ => none
+def kindOfName (s : String) : Option Kind :=
+  if s == "protocluster" then some .proto else if s == "candidatecluster" then some .cand
+  else if s == "subregion" then some .sub else none
+
+/-- how a consumer (the drawing code, the harness) reads one area: `start`, `end`, `kind` and
+    `height` must be there; a missing neighbouring coordinate is the core's, a missing string is
+    empty, a missing group is 0 -/
+def readArea (j : List (String × JVal)) : Option Area := do
+  let start ← jInt j "start"
+  let stop ← jInt j "end"
+  let kind ← (jStr j "kind").bind kindOfName
+  let height ← jInt j "height"
+  pure { start := start, «end» := stop, kind := kind, height := height,
+         nstart := (jInt j "neighbouring_start").getD start, nend := (jInt j "neighbouring_end").getD stop,
+         product := (jStr j "product").getD "", group := (jInt j "group").getD 0,
+         «prefix» := (jStr j "prefix").getD "", category := (jStr j "category").getD "",
+         tool := (jStr j "tool").getD "" }
+
+end ASV.Packing.Spec
